@@ -386,41 +386,19 @@ var c03OpNames = []string{"MAIL", "MAIL(upper)", "MAIL(bad)", "RCPT(t0)", "RCPT(
 
 const c03Msg = "From: <a@src.example>\r\nSubject: c03\r\n\r\nbody\r\n"
 
-func harness_C03_session() {
-	k := verifParam("k", 4)
-	deferred := verifParam("defer", 0) == 1
-	lmtp := verifParam("lmtp", 0) == 1
-	authReq := verifParam("authreq", 0) == 1
-	withCheck := verifParam("check", 1) == 1
-	withMod := verifParam("mod", 1) == 1
-	nfaults := verifParam("faults", 1)
-	opset := verifParam("opset", 0) // 0: core ops, 1: all ops
+// ---------------------------------------------------------------------------
+// environment set-up shared by the symbolic harness and the native
+// discipline test
 
-	c03.fA, c03.fB = -1, -1
-	c03.aOnce, c03.aFired, c03.commitFaults = false, false, 0
+type c03Cfg struct {
+	deferred, lmtp, authReq, withCheck, withMod, partial bool
+}
+
+func c03Setup(cfg c03Cfg) *Endpoint {
 	c03.all = nil
 	c03.permits = map[string]int{}
-	if nfaults >= 1 {
-		c03.fA = nondetInt("faultA", 0, nSites) // nSites = no fault
-		if verifParam("once", 0) == 1 {
-			c03.aOnce = nondetBool("faultAOnce")
-		}
-	}
-	if nfaults >= 2 {
-		c03.fB = nondetInt("faultB", 0, nSites)
-		verifAssume(c03.fA < c03.fB || c03.fB == nSites)
-	}
-	partial := verifParam("partial", 0) == 1
-	c03.partialFirstFails = false
-	if partial {
-		c03.partialFirstFails = nondetBool("partialFirstFails")
-	}
-	c03.targets = [2]*c03Target{{name: "t0", id: 0, partial: partial}, {name: "t1", id: 1}}
-	if partial {
-		// targets that report per-recipient results finish their work in
-		// BodyNonAtomic (remote, LMTP downstream): their Commit does not fail
-		verifAssume(c03.fA != siteCommit && c03.fB != siteCommit)
-	}
+	c03.aFired, c03.commitFaults = false, 0
+	c03.targets = [2]*c03Target{{name: "t0", id: 0, partial: cfg.partial}, {name: "t1", id: 1}}
 	c03Chk, c03Mod = &c03Check{}, &c03Modifier{}
 	if !verifSymbolic() {
 		module.RegisterInstance(c03.targets[0], nil)
@@ -428,12 +406,11 @@ func harness_C03_session() {
 		module.RegisterInstance(c03Chk, nil)
 		module.RegisterInstance(c03Mod, nil)
 	}
-
 	var nodes []config.Node
-	if withCheck {
+	if cfg.withCheck {
 		nodes = append(nodes, config.Node{Name: "check", Children: []config.Node{{Name: "&chk"}}})
 	}
-	if withMod {
+	if cfg.withMod {
 		nodes = append(nodes, config.Node{Name: "modify", Children: []config.Node{{Name: "&mod"}}})
 	}
 	nodes = append(nodes,
@@ -456,9 +433,9 @@ func harness_C03_session() {
 		pipeline:            pipeline,
 		limits:              &limits.Group{},
 		buffer:              buffer.BufferInMemory,
-		authAlwaysRequired:  authReq,
-		lmtp:                lmtp,
-		deferServerReject:   deferred,
+		authAlwaysRequired:  cfg.authReq,
+		lmtp:                cfg.lmtp,
+		deferServerReject:   cfg.deferred,
 		maxLoggedRcptErrors: 5,
 		maxReceived:         1,
 		maxHeaderBytes:      1 << 20,
@@ -466,9 +443,10 @@ func harness_C03_session() {
 		Log:                 log.Logger{},
 	}
 	if !verifSymbolic() {
-		// native replay: the real limiter with one permit per source and per
-		// address; a permit that is not returned makes the probe below fail, a
-		// release of a permit that is not held panics in the semaphore
+		// natively: the real limiter with one permit per source and per
+		// address; a permit that is not returned makes the probe after the
+		// session fail, a release of a permit that is not held panics in the
+		// semaphore
 		mod, _ := limits.New("limits", "c03", nil, nil)
 		if err := mod.Init(config.NewMap(nil, config.Node{Children: []config.Node{
 			{Name: "source", Args: []string{"concurrency", "1"}},
@@ -478,19 +456,153 @@ func harness_C03_session() {
 		}
 		endp.limits = mod.(*limits.Group)
 	}
+	return endp
+}
+
+// c03Mirror is the model of the go-smtp connection state, i.e. of the
+// calling discipline of the pinned fork (conn.go): Mail is passed on also
+// inside an open transaction, Rcpt only after an accepted Mail, Data only
+// with at least one accepted recipient and always followed by Reset, nothing
+// after Logout. It is validated against the real smtp.Server by
+// TestVerifC03Discipline.
+type c03Mirror struct {
+	from     bool
+	accepted []string
+	open     bool
+	authed   bool
+}
+
+type c03StepResult struct {
+	skipped  bool // go-smtp answers by itself, the Session is not called
+	err      error
+	statuses *c03Statuses
+}
+
+func c03Arg(op int) string {
+	switch op {
+	case opMailOK:
+		return "a@src.example"
+	case opMailUpper:
+		return "a@SRC.example"
+	case opMailBad:
+		return "ü@src.example"
+	case opRcptT0:
+		return "x@a.example"
+	case opRcptT1:
+		return "x@b.example"
+	case opRcptBoth:
+		return "x@ab.example"
+	case opRcptRejected:
+		return "x@r.example"
+	case opRcptBad:
+		return "ü@a.example"
+	case opData:
+		return c03Msg
+	case opDataBadHeader:
+		return "not a header line\r\n\r\nbody\r\n"
+	case opDataLoop:
+		return "Received: from a\r\nReceived: from b\r\n" + c03Msg
+	}
+	return ""
+}
+
+// c03Step performs one client command against the Session the way go-smtp does.
+func c03Step(s *Session, m *c03Mirror, lmtp bool, op int) c03StepResult {
+	switch op {
+	case opMailOK, opMailUpper, opMailBad:
+		err := s.Mail(c03Arg(op), &smtp.MailOptions{})
+		if err == nil {
+			m.from = true
+		}
+		return c03StepResult{err: err}
+	case opRcptT0, opRcptT1, opRcptBoth, opRcptRejected, opRcptBad:
+		if !m.from {
+			return c03StepResult{skipped: true}
+		}
+		to := c03Arg(op)
+		err := s.Rcpt(to, &smtp.RcptOptions{})
+		if err == nil {
+			m.accepted = append(m.accepted, to)
+		}
+		return c03StepResult{err: err}
+	case opData, opDataBadHeader, opDataLoop:
+		if !m.from || len(m.accepted) == 0 {
+			return c03StepResult{skipped: true}
+		}
+		st := &c03Statuses{set: map[string][]error{}}
+		var ret error
+		if lmtp {
+			ret = s.LMTPData(strings.NewReader(c03Arg(op)), st)
+		} else {
+			ret = s.Data(strings.NewReader(c03Arg(op)))
+		}
+		// deferred c.reset() after DATA, success or not
+		s.Reset()
+		m.from, m.accepted = false, nil
+		return c03StepResult{err: ret, statuses: st}
+	case opRset:
+		s.Reset()
+		m.from, m.accepted = false, nil
+	case opQuit:
+		s.Logout()
+		m.open = false
+	case opAuth:
+		err := s.AuthPlain("user", "pass")
+		if err == nil {
+			m.authed = true
+		}
+		return c03StepResult{err: err}
+	}
+	return c03StepResult{}
+}
+
+func c03NewSession(endp *Endpoint) *Session {
 	// NewSession without the go-smtp connection object
 	s := endp.newSession(nil)
 	s.connState = module.ConnState{Hostname: "client.example", RemoteAddr: &net.TCPAddr{IP: net.IPv4(10, 0, 0, 1), Port: 1234}, Proto: "ESMTP"}
 	endp.sessionCnt.Add(1)
+	return s
+}
 
-	// mirror of the go-smtp connection state (calling discipline of the pinned fork)
-	from := false
-	var accepted []string // recipients go-smtp recorded for this transaction
-	open := true
-	authed := false
+func harness_C03_session() {
+	k := verifParam("k", 4)
+	cfg := c03Cfg{
+		deferred:  verifParam("defer", 0) == 1,
+		lmtp:      verifParam("lmtp", 0) == 1,
+		authReq:   verifParam("authreq", 0) == 1,
+		withCheck: verifParam("check", 1) == 1,
+		withMod:   verifParam("mod", 1) == 1,
+		partial:   verifParam("partial", 0) == 1,
+	}
+	lmtp, authReq := cfg.lmtp, cfg.authReq
+	nfaults := verifParam("faults", 1)
+	opset := verifParam("opset", 0) // 0: core ops, 1: all ops
+
+	c03.fA, c03.fB = -1, -1
+	c03.aOnce = false
+	if nfaults >= 1 {
+		c03.fA = nondetInt("faultA", 0, nSites) // nSites = no fault
+		if verifParam("once", 0) == 1 {
+			c03.aOnce = nondetBool("faultAOnce")
+		}
+	}
+	if nfaults >= 2 {
+		c03.fB = nondetInt("faultB", 0, nSites)
+		verifAssume(c03.fA < c03.fB || c03.fB == nSites)
+	}
+	c03.partialFirstFails = false
+	if cfg.partial {
+		c03.partialFirstFails = nondetBool("partialFirstFails")
+		// targets that report per-recipient results finish their work in
+		// BodyNonAtomic (remote, LMTP downstream): their Commit does not fail
+		verifAssume(c03.fA != siteCommit && c03.fB != siteCommit)
+	}
+	endp := c03Setup(cfg)
+	s := c03NewSession(endp)
+	m := &c03Mirror{open: true}
 	var hist []string
 
-	for step := 0; step < k && open; step++ {
+	for step := 0; step < k && m.open; step++ {
 		op := nondetInt(fmt.Sprintf("op%d", step), 0, nOps-1)
 		op = verifConcretize(op)
 		if opset == 0 && (op == opMailUpper || op == opRcptBad || op == opDataLoop || op == opAuth || op == opMailBad) {
@@ -500,62 +612,38 @@ func harness_C03_session() {
 			verifStop()
 		}
 		hist = append(hist, c03OpNames[op])
+		preOpen := len(c03.all)
+		wasAuthed := m.authed
+		accepted := m.accepted // recipients go-smtp recorded for this transaction
+		committedBefore := 0
+		for _, d := range c03.all {
+			if d.state == dCommitted {
+				committedBefore++
+			}
+		}
+		faultsBefore := c03.commitFaults
+
+		r := c03Step(s, m, lmtp, op)
+		if r.skipped {
+			verifStop() // go-smtp refuses the command itself: same as not sending it
+		}
+
 		switch op {
 		case opMailOK, opMailUpper, opMailBad:
-			arg := "a@src.example"
-			if op == opMailUpper {
-				arg = "a@SRC.example"
-			} else if op == opMailBad {
-				arg = "ü@src.example"
-			}
-			preOpen := len(c03.all)
-			err := s.Mail(arg, &smtp.MailOptions{})
-			if err == nil {
-				from = true
-			}
-			if authReq && !authed {
-				if err == nil {
+			if authReq && !wasAuthed {
+				if r.err == nil {
 					verifFail("C03.mail-accepted-before-auth")
 				}
 				if len(c03.all) != preOpen {
 					verifFail("C03.delivery-opened-before-auth")
 				}
 			}
-		case opRcptT0, opRcptT1, opRcptBoth, opRcptRejected, opRcptBad:
-			if !from {
-				verifStop() // go-smtp refuses RCPT without MAIL
-			}
-			to := map[int]string{opRcptT0: "x@a.example", opRcptT1: "x@b.example", opRcptBoth: "x@ab.example", opRcptRejected: "x@r.example", opRcptBad: "ü@a.example"}[op]
-			if err := s.Rcpt(to, &smtp.RcptOptions{}); err == nil {
-				accepted = append(accepted, to)
-				if op == opRcptRejected || op == opRcptBad {
-					verifFail("C03.refusable-recipient-accepted")
-				}
+		case opRcptRejected, opRcptBad:
+			if r.err == nil {
+				verifFail("C03.refusable-recipient-accepted")
 			}
 		case opData, opDataBadHeader, opDataLoop:
-			if !from || len(accepted) == 0 {
-				verifStop() // go-smtp refuses DATA without recipients
-			}
-			msg := c03Msg
-			if op == opDataBadHeader {
-				msg = "not a header line\r\n\r\nbody\r\n"
-			} else if op == opDataLoop {
-				msg = "Received: from a\r\nReceived: from b\r\n" + c03Msg
-			}
-			committedBefore := 0
-			for _, d := range c03.all {
-				if d.state == dCommitted {
-					committedBefore++
-				}
-			}
-			faultsBefore := c03.commitFaults
-			var ret error
-			statuses := &c03Statuses{set: map[string][]error{}}
-			if lmtp {
-				ret = s.LMTPData(strings.NewReader(msg), statuses)
-			} else {
-				ret = s.Data(strings.NewReader(msg))
-			}
+			ret, statuses := r.err, r.statuses
 			committedNow := 0
 			for _, d := range c03.all {
 				if d.state == dCommitted {
@@ -589,17 +677,9 @@ func harness_C03_session() {
 				}
 				d := t.deliveries[len(t.deliveries)-1]
 				has := false
-				for _, x := range d.rcpts {
+				for _, x := range d.okRcpts {
 					if x == r {
 						has = true
-					}
-				}
-				if t.partial {
-					has = false
-					for _, x := range d.okRcpts {
-						if x == r {
-							has = true
-						}
 					}
 				}
 				return d.state == dCommitted && d.bodyOK && has
@@ -635,7 +715,7 @@ func harness_C03_session() {
 						}
 						verifCover("C03.lmtp-rcpt-ok")
 					} else if !commitStepFailed && !t.partial {
-						if committedFor(t, r) || (len(t.deliveries) > 0 && t.deliveries[len(t.deliveries)-1].state == dCommitted && !t.deliveries[len(t.deliveries)-1].bodyOK) {
+						if len(t.deliveries) > 0 && t.deliveries[len(t.deliveries)-1].state == dCommitted {
 							verifLog("recipient", r, "trace", strings.Join(hist, " "))
 							verifFail("C03.lmtp-failure-reply-but-target-committed")
 						}
@@ -643,51 +723,42 @@ func harness_C03_session() {
 					}
 				}
 			}
-			// go-smtp: deferred c.reset() after DATA, success or not
-			s.Reset()
-			from, accepted = false, nil
-		case opRset:
-			s.Reset()
-			from, accepted = false, nil
-		case opQuit:
-			s.Logout()
-			open = false
-		case opAuth:
-			if err := s.AuthPlain("user", "pass"); err == nil {
-				authed = true
-			}
 		}
 	}
-	if open {
+	if m.open {
 		// connection loss
 		s.Logout()
 	}
+	c03EndOfSession(endp, strings.Join(hist, " "))
+}
 
-	// ---- end of session ----
+func c03EndOfSession(endp *Endpoint, hist string) {
 	for _, d := range c03.all {
 		if d.terminal == 0 {
-			verifLog("target", d.t.name, "delivery left open; trace", strings.Join(hist, " "))
+			verifLog("target", d.t.name, "delivery left open; trace", hist)
 			verifFail("C03.delivery-never-closed")
 		}
 		if d.terminal > 1 {
-			verifLog("target", d.t.name, "terminal calls", d.terminal, "trace", strings.Join(hist, " "))
+			verifLog("target", d.t.name, "terminal calls", d.terminal, "trace", hist)
 			verifFail("C03.delivery-closed-twice")
 		}
 	}
 	if !verifSymbolic() {
 		ctx, cancel := context.WithTimeout(context.Background(), 300*time.Millisecond)
-		for _, dom := range []string{"src.example", "SRC.example"} {
-			if err := endp.limits.TakeMsg(ctx, net.IPv4(10, 0, 0, 1), dom); err != nil {
-				verifLog("permit for", dom, "is still held after the session")
-				verifFail("C03.permit-not-returned")
+		for _, ip := range []net.IP{net.IPv4(10, 0, 0, 1), net.IPv4(127, 0, 0, 1)} {
+			for _, dom := range []string{"src.example", "SRC.example"} {
+				if err := endp.limits.TakeMsg(ctx, ip, dom); err != nil {
+					verifLog("permit for", dom, "is still held after the session")
+					verifFail("C03.permit-not-returned")
+				}
+				endp.limits.ReleaseMsg(ip, dom)
 			}
-			endp.limits.ReleaseMsg(net.IPv4(10, 0, 0, 1), dom)
 		}
 		cancel()
 	}
 	for key, n := range c03.permits {
 		if n != 0 {
-			verifLog("permit", key, "held", n, "trace", strings.Join(hist, " "))
+			verifLog("permit", key, "held", n, "trace", hist)
 			verifFail("C03.permit-not-returned")
 		}
 	}
